@@ -3,6 +3,9 @@ import Driver.RowPipe
 import Driver.Anim
 import Driver.Opts
 import Driver.VP8L
+import Driver.LTransform
+import Driver.Alpha
+import Driver.Import
 /-
   webpdrv — line protocol: one operation per input line (`op arg arg …`), one canonical
   output line per operation.  Unknown or malformed operations answer `bad-op` (never a default).
@@ -13,7 +16,10 @@ def dispatch (line : String) : String :=
   | op :: args =>
     match (Driver.Container.handle op args <|> Driver.RowPipe.handle op args
            <|> Driver.Anim.handle op args <|> Driver.Opts.handle op args
-           <|> Driver.VP8L.handle op args) with
+           <|> Driver.VP8L.handle op args
+           <|> Driver.LTransform.handle op args
+           <|> Driver.Alpha.handle op args
+           <|> Driver.Import.handle op args) with
     | some r => r
     | none => "bad-op"
 
